@@ -221,6 +221,9 @@ def run(ctx, exe, tier, seed, modes=("exh", "rand"), family_prop="C15",
             raise vlib.MachineryError("drv_netdata count failed: " + err)
         return int(out.strip())
 
+    rc, out, err = vlib.sh([exe, tsv, "count", "alpha"])
+    stats["alphabet_full"], stats["alphabet_core"], stats["prefixes"] = \
+        [int(x) for x in out.split()]
     if "exh" in modes:
         d = exh_depth or 2
         total = count("exh", str(d))
